@@ -192,6 +192,43 @@ def subtree_moves(s):
         s.do(op='rp_get', v=39, u=u)
 
 
+def parent_spellings(s):
+    """C09: the same moves with the parent's uuid written in other forms the
+    uuid format admits (API!Readings): whichever reading the service takes,
+    a loop is refused and the forest stays a forest."""
+    for u, par in (('p1', ''), ('p2', 'p1'), ('p3', 'p2'), ('p4', ''), ('p5', 'p4')):
+        s.mk(u, par)
+    mv = lambda u, par, how, v=39: s.do(op='rp_update', v=v, u=u, name=u, parent=par, pspell=how)
+    for how in ('upper', 'nodash', 'braces'):
+        mv('p1', 'p3', how)          # loop through a grandchild
+        mv('p1', 'p2', how, v=14)    # loop, first-time parenting at 1.14
+        mv('p2', 'p2', how)          # self
+        mv('p4', 'p5', how, v=36)
+        mv('p4', 'p3', how)          # legal move of a root under another tree
+        mv('p4', 'null', how)
+        s.do(op='rp_create', v=39, u='p6', name='p6', parent='p3', pspell=how)
+        s.do(op='rp_create', v=14, u='p6', name='p6', parent='p6', pspell=how)
+        s.do(op='rp_delete', v=39, u='p6')
+    for u in sorted(s.st['rp']):
+        s.do(op='rp_get', v=39, u=u)
+
+
+def ratio_nudges(s):
+    """C11: a successful inventory write that changes nothing but the
+    allocation ratio, and that by very little, is stored like any other."""
+    s.mk('p1')
+    near = [(16, 1), (1048577, 65536), (16, 1), (1048575, 65536), (3, 2), (98305, 65536), (3, 2)]
+    for num, den in near:
+        s.invs('p1', VCPU=INV(100, num=num, den=den), DISK_GB=INV(50, num=num, den=den))
+        s.do(op='inv_list', v=39, u='p1')
+    for num, den in near:
+        s.do(op='inv_put', v=39, u='p1', gen=s.gen('p1'), rc='VCPU', inv=INV(100, num=num, den=den))
+        s.do(op='inv_get', v=39, u='p1', rc='VCPU')
+    for num, den in near:
+        s.reshape({'p1': {'VCPU': INV(100, num=num, den=den), 'DISK_GB': INV(50, num=num, den=den)}}, [])
+        s.do(op='inv_list', v=39, u='p1')
+
+
 def consumer_lifecycle(s):
     """C12 at the four version bands."""
     basic_tree(s)
@@ -397,6 +434,8 @@ SCENARIOS = {
     'reshape_moves_class': reshape_moves_class,
     'drop_class_in_use': drop_class_in_use,
     'subtree_moves': subtree_moves,
+    'ratio_nudges': ratio_nudges,
+    'parent_spellings': parent_spellings,
     'consumer_lifecycle': consumer_lifecycle,
     'names_lifecycle': names_lifecycle,
     'list_form_duplicates': list_form_duplicates,
